@@ -204,7 +204,14 @@ pub fn campaign(seed: u64, count: u64, max_ops: u64, cfg: &GenCfg, ops_path: &st
         let mut dead = false;
         for i in 0..=n_ops {
             let line = if i == 0 {
-                if small_buffer { format!("create {} 1024", version) } else { format!("create {}", version) }
+                // one history in four on an underlying file that splits transfers (named in the `create` line)
+                match (small_buffer, h % 8) {
+                    (true, 7) => format!("create {} 1024 short", version),
+                    (true, _) => format!("create {} 1024", version),
+                    (false, 3) => format!("create {} - short", version),
+                    (false, 6) => format!("create {} - intr", version),
+                    _ => format!("create {}", version),
+                }
             } else if r.below(100) < cfg.reopen_pct {
                 format!("reopen {}", if r.chance(1, 2) { "strict" } else { "permissive" })
             } else if snapdir.is_some() && r.chance(1, 10) {
@@ -455,7 +462,7 @@ pub fn handle_campaign(seed: u64, count: u64, max_ops: u64, ops_path: &str, impl
         let n_ops = 8 + r.below(max_ops);
         let mut hash: u64 = 1469598103934665603;
         let mut lines_done = 0u64;
-        let mut pending: Vec<String> = vec![format!("create {}", version)];
+        let mut pending: Vec<String> = vec![match h % 6 { 2 => format!("create {} - short", version), 5 => format!("create {} - intr", version), _ => format!("create {}", version) }];
         // a prefix that builds a sibling tree with inner nodes
         for nm in pool.iter().take(3 + r.below(4) as usize) {
             let p = format!("/{}", nm);
